@@ -119,6 +119,7 @@ def _shard(ctx, shard, nshards):
 
 
 def run(ctx):
+    native.setup()       # translate + compile once, before the shard processes fork
     ctx.shards(_shard, 16, 16)
     return RULE, 'exploration', [
         'sentences with more than 20000 (sub-)derivations are discarded from this check (counted)',
